@@ -11,6 +11,7 @@ and S1 itself: every entry decodes, no RQ, no W other than 0404 fragments, nothi
 from __future__ import annotations
 
 import asyncio
+import datetime as _dt
 import gc
 
 from .. import clock, world  # noqa: F401
@@ -71,6 +72,7 @@ async def run(ctx) -> None:
     await asyncio.sleep(0.3)
     n_rx = 0
     n_snap = 0
+    delivered: list = []
     eaves = bool(k("eavesdrop"))
     for name, n in sorted((k("hist_counts") or {}).items()):
         hub.count(name, n)
@@ -163,7 +165,7 @@ async def run(ctx) -> None:
             await asyncio.sleep(0.1)
             S3 = g2.get_state(include_expired=exp)
             S3 = (S3[0], {d: l for d, l in S3[1].items() if own not in l})
-            compare(S2, S3, g2, where, "twice", "restoring the same snapshot a second time into the fresh gateway")
+            compare(S2, S3, g2, where, "twice", "restoring the same snapshot a second time into the fresh gateway", origin=S1)
         except Exception as err:  # noqa
             ctx.violate("C16", "restore_raised", exc_sig(err), f"{where}: restoring twice raised {type(err).__name__}: {err}")
         await g2.stop()
@@ -186,10 +188,16 @@ async def run(ctx) -> None:
                 out.append(f"{key}: {str(a.get(key))[:300]} -> {str(b.get(key))[:300]}")
         return "; ".join(out)[:900]
 
-    def compare(A, B, g, where, tag, what):
+    def compare(A, B, g, where, tag, what, origin=None):
         """B (taken later, on gateway g) must be A: nothing added, nothing changed, nothing lost except what has expired by now
         (the library drops an expired message when it is next read); the schema identical when eavesdropping is off."""
-        new = [f"{d} {B[1][d]}" for d in B[1] if d not in A[1]]
+        new = []
+        for d in B[1]:
+            if d not in A[1]:
+                if origin is not None and origin[1].get(d) == B[1][d] and expired_now(g, d, B[1][d]):
+                    ctx.probe("expired_packet_of_the_snapshot_back_after_a_second_restore")  # dropped when read, restored again
+                else:
+                    new.append(f"{d} {B[1][d]}")
         chg = [d for d in A[1] if d in B[1] and A[1][d] != B[1][d]]
         lost = []
         reclassed = False
@@ -210,11 +218,30 @@ async def run(ctx) -> None:
                         da = gwy.device_by_id.get(src)
                         lost[-1] += (f" [its source is a {type(da).__name__} in the original gateway and a {type(db).__name__} when the "
                                      f"packet is restored: that class does not send {verb}|{code}]")
+        def merged_fragment(d) -> bool:
+            """a controller's / UFC's I|000A or I|22C9 with another one of the same source within 3 s: the library merges such
+            pairs into one array message (detect_array_fragment), which is what KF9 is about"""
+            line = A[1][d]
+            parts = line.split(" # ")[0].split()
+            if line[4:6] != " I" or not any(c in parts[5:8] for c in ("000A", "22C9")):
+                return False
+            src = next((x for x in parts[2:6] if x[2:3] == ":" and x[:2] != "--"), None)
+            code = next(c for c in ("000A", "22C9") if c in parts[5:8])
+            t = _dt.datetime.fromisoformat(d)
+            n = 0
+            for (t2, f2) in delivered:  # the history as delivered (the partner may have been displaced from the state db already)
+                if f2[:2] == " I" and f2[7:16] == src and f2[37:41] == code and abs((t2 - t).total_seconds()) < 3.0:
+                    n += 1
+            return n >= 2  # itself and at least one partner
+
+        lost_keys = [x.split(" ", 1)[0] for x in lost]
         if lost or new or chg:
             kind = "lost" if lost else ("added" if new else "changed")
+            if not new and (lost or chg) and all(merged_fragment(d) for d in lost_keys + chg):
+                kind = "array_fragment_merge"
             if kind == "lost" and reclassed:
                 kind = "lost_rejected_by_eavesdropped_class"
-            if kind == "changed" and all(A[1][d].split(" # ")[0] == B[1][d].split(" # ")[0] for d in chg):
+            if kind == "changed" and all(A[1][d].split(" # ")[0] == B[1][d].split(" # ")[0] for d in chg):  # (other codes)
                 kind = "reinterpreted"  # same frames, but the later snapshot gives one another context (the '# hdr (ctx)' hint)
             first = (lost or new or [f"{chg[0]} {A[1][chg[0]]}"])[0].split(" ")
             code = next((first[i + 1] for i, x in enumerate(first) if x.count(":") == 1 and len(x) == 9 and i + 1 < len(first)
@@ -222,7 +249,8 @@ async def run(ctx) -> None:
             ctx.violate("C16", f"packets_{kind}", f"{code}:{tag}", f"{where}: {what}: {len(A[1])} -> {len(B[1])} packets; lost={lost[:3]} "
                         f"added={new[:3]} changed={[(d, A[1][d], B[1][d]) for d in chg[:2]]}")
         elif not eaves and tag != "downtime" and shrink(A[0]) != shrink(B[0]):
-            if "downtime" in what:
+            if "downtime" in what or any(expired_now(g, d, l) for d, l in A[1].items()):
+                # which devices are 'present' depends on live packets: if some of the snapshot's packets have expired by now ...
                 ctx.probe("schema_differs_after_downtime_(expiry,_not_judged)")
             else:
                 ctx.violate("C16", "schema_differs", tag, f"{where}: {what}: the schema differs: {sdiff(A[0], B[0])}")
@@ -232,6 +260,7 @@ async def run(ctx) -> None:
         where = f"op {si} ({kind}) after {n_rx} packets"
         if kind == "rx":
             hub.rx_line(ser, o["f"])
+            delivered.append((clock.EPOCH + _dt.timedelta(microseconds=clock.peek_us()), o["f"]))
             n_rx += 1
             if o.get("gap", 0.004) > 0:
                 await asyncio.sleep(o["gap"])
